@@ -78,7 +78,8 @@ func (ro *Roles) admissionTable(r *Report, rule, mode string) {
 	if !ro.need(r, rule, map[string]*ssa.Function{"admission function": ro.Admit, "counting function": ro.Count}) {
 		return
 	}
-	res := w.EnumPaths(ro.Admit, EnumOpts{})
+	// (helpers of the admission function — named predicates, an extracted queue decision — are spliced in)
+	res := w.EnumPaths(ro.Admit, EnumOpts{Inline: true})
 	r.Count("paths", len(res.Paths))
 	key := FuncName(ro.Admit) + ": decision table (" + mode + ")"
 	pos := w.Pos(ro.Admit.Pos())
@@ -250,15 +251,20 @@ type acceptPath struct {
 
 func (ro *Roles) admitReturnable() map[string]bool {
 	out := map[string]bool{}
-	allInstrs(ro.Admit, func(in ssa.Instruction) {
-		if rt, ok := in.(*ssa.Return); ok {
-			if c, ok := rt.Results[0].(*ssa.Const); ok {
-				out[ro.ActionName[c.Int64()]] = true
-			} else {
-				out["?"] = true
-			}
+	if ro.admitRetMemo != nil {
+		return ro.admitRetMemo
+	}
+	for _, p := range ro.w.EnumPaths(ro.Admit, EnumOpts{Inline: true}).Paths {
+		if p.End != "return" || len(p.RetVals) != 1 {
+			continue
 		}
-	})
+		if c, ok := p.RetVals[0].(*ssa.Const); ok {
+			out[ro.ActionName[c.Int64()]] = true
+		} else {
+			out["?"] = true
+		}
+	}
+	ro.admitRetMemo = out
 	return out
 }
 
@@ -331,6 +337,18 @@ func isTraceEffect(e Effect, ro *Roles) (bool, string) {
 	return false, ""
 }
 
+// isSnapshotCtor: a function from the definition's task map to the job's own task list.
+func (ro *Roles) isSnapshotCtor(f *ssa.Function) bool {
+	ps := f.Signature.Params()
+	for i := 0; i < ps.Len(); i++ {
+		t := ps.At(i).Type().String()
+		if strings.HasPrefix(t, "map[string]") && strings.HasSuffix(t, "definition.TaskDef") {
+			return f.Signature.Results().Len() == 1
+		}
+	}
+	return false
+}
+
 // acceptEffects checks the accept function path by path. which selects rule groups.
 func (ro *Roles) acceptEffects(r *Report, which map[string]bool) {
 	w := ro.w
@@ -339,7 +357,8 @@ func (ro *Roles) acceptEffects(r *Report, which map[string]bool) {
 	}
 	fn := ro.Accept
 	fname := FuncName(fn)
-	res := w.EnumPaths(fn, EnumOpts{Inline: true, Opaque: w.statelessCallee})
+	// every helper is spliced in except the task-snapshot constructor (it is referred to by name below)
+	res := w.EnumPaths(fn, EnumOpts{Inline: true, Opaque: ro.isSnapshotCtor})
 	r.Count("paths", len(res.Paths))
 	if res.Truncated || len(res.Paths) == 0 {
 		r.Undecided("accept.paths", fname, w.Pos(fn.Pos()), "cannot enumerate the accept function's paths")
